@@ -8,7 +8,10 @@ model registered by every instance."""
 import itertools
 import json
 import random
+import os
 import re
+import subprocess
+import sys
 import tempfile
 
 ID = "C16"
@@ -17,12 +20,12 @@ TECHNIQUE = "solo-replay differential over interleaved multi-instance request hi
 RULE = ("k=2..3 instances, 3-8 requests each from {begin-session (with / without settings), run-step with constants / points / {} / no body, "
         "run-steps, stream-steps, session-results, flat-session-results, end-session, keep-alive, stop-instance}; ALL interleavings of 2x3 requests "
         "for 12 script pairs (quick) / 40 (thorough) + seeded random interleavings of longer scripts; one instance stopped or timed out "
-        "(controlled clock) midway; instances created up front, lazily (also after another instance was stopped) or by one /start-instances batch; two factory styles (model per instance / one shared module-level model); with and without a file adapter. "
+        "(controlled clock) midway; instances created up front, lazily (also after another instance was stopped) or by one /start-instances batch; three factory styles (model per instance / one shared module-level model / engines that load JSON scenario files and a model file from the working directory); begin-session settings incl. run specs that move one instance onto another time grid; with and without a file adapter. The solo replays run in a FRESH PROCESS (module-level state left behind by other engines cannot reach them). "
         "distinct_nontrivial = distinct (script pair, interleaving) in which both instances change settings and at least one request of one "
         "instance lies between two requests of the other.")
 ASSUMPTIONS = ["the instance that is stopped / timed out is not compared after that point; all others are",
                "responses are compared as parsed JSON (key order ignored), instance ids normalised"]
-REQUIRED = {"interleavings": 200, "responses_compared": 2000, "solo_replays": 100}
+REQUIRED = {"file_based_factories": 5, "solo_replays_in_fresh_process": 100, "interleavings": 200, "responses_compared": 2000, "solo_replays": 100}
 BUDGET_S = {"quick": 110, "thorough": 1500}
 
 
@@ -34,6 +37,8 @@ def req_pool(rng, variant):
         ("begin", dict(scenario_managers=[MG], scenarios=[SC], equations=list(EQS))),
         ("begin", dict(scenario_managers=[MG], scenarios=[SC], equations=list(EQS), settings={MG: {SC: {"constants": {"rate": v}}}})),
         ("begin2", dict(scenario_managers=[MG], scenarios=[SC, "alt"], equations=["stock", "rate"])),
+        # a session whose settings move the scenario onto another time grid (start between the grid points of the other instances)
+        ("begin", dict(scenario_managers=[MG], scenarios=[SC], equations=list(EQS), settings={MG: {SC: {"runspecs": {"starttime": rng.choice([0.5, 0.25, 2.5])}}}})),
         ("step", dict(settings={MG: {SC: {"constants": {"rate": v}}}})),
         ("step", dict(settings={MG: {SC: {"points": {"curve": pts}}}})),
         ("step", dict(settings={})),
@@ -46,9 +51,9 @@ def req_pool(rng, variant):
 
 def make_script(rng, n, variant):
     pool = req_pool(rng, variant)
-    s = [rng.choice(pool[:3])]
+    s = [rng.choice(pool[:4])]
     while len(s) < n:
-        r = rng.choice(pool[3:] + pool[3:8])
+        r = rng.choice(pool[4:] + pool[4:9])
         s.append(r)
     return s
 
@@ -58,9 +63,9 @@ def gen_cases(tier, seed):
     cases = []
     npairs = 12 if tier == "quick" else 40
     for i in range(npairs):
-        cases.append(dict(kind="all2x3", seed=rng.randrange(10 ** 9), shared=bool(i % 2), adapter=bool(i % 3 == 0)))
+        cases.append(dict(kind="all2x3", seed=rng.randrange(10 ** 9), shared=bool(i % 2), adapter=bool(i % 3 == 0), files=(i % 4 == 2)))
     for i in range(60 if tier == "quick" else 1500):
-        cases.append(dict(kind="random", seed=rng.randrange(10 ** 9), shared=bool(i % 2), adapter=bool(i % 4 == 0), k=rng.choice([2, 3]),
+        cases.append(dict(kind="random", seed=rng.randrange(10 ** 9), shared=bool(i % 2), adapter=bool(i % 4 == 0), files=(i % 5 == 2), k=rng.choice([2, 3]),
                           kill=rng.choice([None, "stop", "timeout", "stop"]), creation=["upfront", "lazy", "batch"][i % 3]))
     return cases
 
@@ -83,7 +88,7 @@ def norm(body, ids):
         return body
 
 
-def play(scripts, order, shared, adapter, kill=None, kill_at=None, short=None, creation="upfront"):
+def play(scripts, order, shared, adapter, kill=None, kill_at=None, short=None, creation="upfront", files_tag=None):
     """Runs the interleaving `order` (list of instance indices) on a fresh server.
     Returns per-instance list of (status, normalised body)."""
     from vlib import srv
@@ -92,7 +97,18 @@ def play(scripts, order, shared, adapter, kill=None, kill_at=None, short=None, c
     shared_model = srv.make_model() if shared else None
     out = {i: [] for i in scripts}
     with clock:
-        app = srv.make_server(srv.bptk_factory(shared_model=shared_model), state_dir=tmp)
+        if files_tag is not None:
+            from BPTK_Py import bptk
+            inner = lambda: bptk()        # every engine loads ./scenarios/<tag>.json and ./models/<tag>.py (written by run_case)
+        else:
+            inner = srv.bptk_factory(shared_model=shared_model)
+        engines = []
+
+        def factory():
+            b = inner()
+            engines.append(b)          # engines of file-based managers run file-monitor threads: every one is destroyed at the end
+            return b
+        app = srv.make_server(factory, state_dir=tmp)
         c = app.test_client()
         try:
             ids = {}
@@ -127,6 +143,11 @@ def play(scripts, order, shared, adapter, kill=None, kill_at=None, short=None, c
                 out[i].append((kind, resp.status_code, norm(resp.get_data(as_text=True), [ids[i]])))
         finally:
             srv.destroy_server(app)
+            for b in engines:
+                try:
+                    b.destroy()
+                except Exception:
+                    pass
     if tmp:
         import shutil
         shutil.rmtree(tmp, True)
@@ -161,16 +182,75 @@ def run_case(case):
             first = [short] * len(scripts[short])
             orders = [first + rest[:len(rest) // 2] + [late] * len(scripts[late]) + rest[len(rest) // 2:]]
             kill_at = len(first)
-    solo = {}
-    for i in scripts:
-        if i == short:
-            continue
-        solo[i] = play({i: scripts[i]}, [i] * len(scripts[i]), case["shared"], case["adapter"])[i]
-        counters["solo_replays"] = counters.get("solo_replays", 0) + 1
+    files_tag = None
+    if case.get("files"):
+        from vlib import srv
+        _n[0] += 1
+        files_tag = "c16f_%d_%d" % (os.getpid(), _n[0])
+        srv.write_scenario_files(files_tag)
+    try:
+        return _run(case, scripts, orders, kill, kill_at, short, files_tag, counters, nts)
+    finally:
+        if files_tag is not None:
+            from vlib import srv
+            srv.remove_scenario_files(files_tag)
+
+
+_n = [0]
+
+CHILD = r"""
+import json, os, sys
+sys.path[:0] = [%(repo)r, %(home)r]
+os.chdir(%(cwd)r)
+from checks import c16
+spec = json.load(open(%(spec)r))
+out = {}
+for i, script in spec["scripts"].items():
+    script = [(k, b) for k, b in script]
+    out[i] = c16.play({int(i): script}, [int(i)] * len(script), spec["shared"], spec["adapter"], files_tag=spec["files_tag"])[int(i)]
+f = open(%(out)r, "w")
+json.dump(out, f)
+f.close()
+os._exit(0)          # leftover monitor threads of an engine must not keep the child alive
+"""
+
+
+def solo_in_child(scripts, shared, adapter, files_tag):
+    """Every instance's own requests replayed alone on a fresh server in a FRESH PROCESS (nothing another engine left behind in
+    module-level state can reach it).  Returns {instance: [(kind, status, body), ...]} or None."""
+    _n[0] += 1
+    sp, op = os.path.abspath("c16_solo_%d_%d.json" % (os.getpid(), _n[0])), os.path.abspath("c16_solo_%d_%d.out" % (os.getpid(), _n[0]))
+    json.dump(dict(scripts={str(i): s for i, s in scripts.items()}, shared=shared, adapter=adapter, files_tag=files_tag), open(sp, "w"))
+    code = CHILD % dict(repo=os.environ["VERIF_REPO"], home=os.environ["VERIF_HOME"], cwd=os.getcwd(), spec=sp, out=op)
+    try:
+        p = subprocess.run([sys.executable, "-W", "ignore", "-c", code], timeout=300, capture_output=True)
+        if p.returncode != 0 or not os.path.exists(op):
+            return None, p.stderr.decode()[-400:]
+        raw = json.load(open(op))
+        return {int(i): [tuple(x) for x in v] for i, v in raw.items()}, None
+    finally:
+        for f in (sp, op):
+            try:
+                os.remove(f)
+            except OSError:
+                pass
+
+
+def _run(case, scripts, orders, kill, kill_at, short, files_tag, counters, nts):
+    solo_scripts = {i: scripts[i] for i in scripts if i != short}
+    solo, err = solo_in_child(solo_scripts, case["shared"], case["adapter"], files_tag)
+    if solo is None:
+        return dict(verdict="inconclusive", counters=counters, witness=dict(harness="solo replay child failed", error=err))
+    counters["solo_replays"] = counters.get("solo_replays", 0) + len(solo)
+    counters["solo_replays_in_fresh_process"] = counters.get("solo_replays_in_fresh_process", 0) + len(solo)
+    if files_tag is not None:
+        counters["file_based_factories"] = 1
     changes = sum(1 for i in scripts if any(b and ("settings" in b and b["settings"]) for _, b in scripts[i]))
     for order in orders:
         counters["interleavings"] = counters.get("interleavings", 0) + 1
-        got = play(scripts, order, case["shared"], case["adapter"], kill, kill_at, short, creation=case.get("creation", "upfront"))
+        got = play(scripts, order, case["shared"], case["adapter"], kill, kill_at, short, creation=case.get("creation", "upfront"), files_tag=files_tag)
+        got = json.loads(json.dumps(got))          # same normal form as the child's answers (tuples -> lists)
+        got = {int(i): [tuple(x) for x in v] for i, v in got.items()}
         if changes >= 2 and any(order[j] != order[j + 1] for j in range(len(order) - 1)):
             nts.append("%d:%s" % (case["seed"], "".join(map(str, order))))
         for i in solo:
@@ -179,6 +259,6 @@ def run_case(case):
                 if a != b:
                     w = dict(kind="differs-from-solo", instance=i, request_index=n, request=scripts[i][n], interleaved=a, solo=b, order=order,
                              scripts={str(k): v for k, v in scripts.items()}, shared_model=case["shared"], killed=kill)
-                    mech = "differs-from-solo:%s" % ("shared-model" if case["shared"] else "own-model")
+                    mech = "differs-from-solo:%s" % ("file-scenarios" if files_tag else "shared-model" if case["shared"] else "own-model")
                     return dict(verdict="violated", nt=nts, counters=counters, mech=mech, witness=w)
     return dict(verdict="held", nt=nts, counters=counters, sample=dict(case=case, scripts={str(k): [x[0] for x in v] for k, v in scripts.items()}))
